@@ -533,6 +533,9 @@ fn run(ctx: &mut Ctx) {
     ] {
         all_positions(ctx, s);
     }
+    // known finding lexical-debug-assert-dot-underscore (panics with debug assertions on)
+    lex_case(ctx, "1._0000000000000000001");
+    pos_case(ctx, &POSITIONS[0], "1._0000000000000000001");
     // 2. lexer, exhaustive short strings
     let (l1, l2) = if quick { (4, 3) } else { (6, 5) };
     for len in 0..=l1 {
